@@ -16,7 +16,7 @@ MANIFEST = dict(
          "succeeds for every start and every positive length (faultfree_success, full statement since the fix of D1). The simulator's per-segment arithmetic "
          "is translated from the source on every run; the assemblers are hand models tied by differential correspondence with the real classes driven "
          "by the real simulator's segment handlers through real STATV encode/decode under seeded fault streams."
-         " Since session 3: one long-lived simulator built by its real constructor serves the whole run; segments travel framed and are unwrapped by the real packet handler; the spa block carries the transport's own tags; an identical request repeated after the block changed must be served with the current bytes. Session 4: the same fault streams also run through the real engine loop (_thread_func, one iteration at a time) on a socket whose buffer holds whole bursts of datagrams (every segment doubled on every single-segment range): same outcome as the datagram-by-datagram run, property read directly. Also histories on ONE long-lived awaitable structure (transfers interleaved with partial-update patches, wholesale loads and overlapping transfers) and async_get_keeps_no_state_between_transfers / threaded_assembler_state_inventory over the regenerated skeletons. Also two transfers requested concurrently on one connection with a re-ordered opening segment, and transfer_holds_the_connection_for_all_its_attempts. Session 5: install_needs_in_sequence_final_segment (+ _traces): in both assemblers replace_status_block_segment is reachable only on a path on which the segment in hand was in sequence AND final (guard monitor over the regenerated skeletons, onlyUnderBothGuards_sound); the fake OS socket truncates a datagram to the reader's buffer.",
+         " Since session 3: one long-lived simulator built by its real constructor serves the whole run; segments travel framed and are unwrapped by the real packet handler; the spa block carries the transport's own tags; an identical request repeated after the block changed must be served with the current bytes. Session 4: the same fault streams also run through the real engine loop (_thread_func, one iteration at a time) on a socket whose buffer holds whole bursts of datagrams (every segment doubled on every single-segment range): same outcome as the datagram-by-datagram run, property read directly. Also histories on ONE long-lived awaitable structure (transfers interleaved with partial-update patches, wholesale loads and overlapping transfers) and async_get_keeps_no_state_between_transfers / threaded_assembler_state_inventory over the regenerated skeletons. Also two transfers requested concurrently on one connection with a re-ordered opening segment, and transfer_holds_the_connection_for_all_its_attempts. Session 5: install_needs_in_sequence_final_segment (+ _traces): in both assemblers replace_status_block_segment is reachable only on a path on which the segment in hand was in sequence AND final (guard monitor over the regenerated skeletons, onlyUnderBothGuards_sound); the fake OS socket truncates a datagram to the reader's buffer. Round 15: refreshes of a CONNECTED blocking client with both of its threads stepped (ping thread calls refresh() once per ping period) and the answer to one refresh lost; every segment doubled back to back also through the awaitable structure, on short chains.",
     note="Trusted: Lean kernel, translator (cross-checked by sweeping (start,len) against the real simulator's queued segments), correspondence harness "
          "(virtual-time loop for the async client; stepped engine with patched clock for the threaded one). Datagram corruption and late segments of a "
          "different transfer window are outside the fault model (as in the property). Lock / polling / timeout timing is C06.",
@@ -651,6 +651,8 @@ def run(ctx):
     #          burst), on every single-segment range and a sample of the others: a finished transfer must not take the duplicate
     singles = [p_ for p_ in todo if len(chains[p_]) == 1]
     others = rng.sample([p_ for p_ in todo if len(chains[p_]) > 1], min(20 if ctx.quick else 400, len([p_ for p_ in todo if len(chains[p_]) > 1])))
+    short = [p_ for p_ in todo if 2 <= len(chains[p_]) <= 8 and p_ not in others]
+    others += rng.sample(short, min(12 if ctx.quick else 200, len(short)))          # a partial refresh is a chain of a few segments
     for (s0, ln) in singles + others:
         ch = chains[(s0, ln)]
         toks = [t_ for i in range(len(ch)) for t_ in (f"s{i}", f"s{i}")]
@@ -659,6 +661,8 @@ def run(ctx):
         rs = run_sync(spa, cli, s0, ln, 2, toks, ch)
         re_ = run_sync_engine(spa, cli, s0, ln, 2, [toks], ch)
         oracle(ctx, "threaded-engine", re_, spa, cli, s0, ln, 3, inp)
+        ra = run_async(spa, cli, s0, ln, 2, toks, ch)            # the awaitable structure on the same doubled reply
+        oracle(ctx, "async", ra, spa, cli, s0, ln, 2, dict(inp, client="async"))
         if (re_["ok"], re_["block"]) != (rs["ok"], rs["block"]):
             ctx.violation(f"engine-differs:threaded:{'single-segment' if len(ch) == 1 else 'multi-segment'}", inp,
                           f"the engine loop installs what the datagram-by-datagram run installs (ok={rs['ok']}, checksum {checksum(rs['block'])})",
@@ -763,6 +767,7 @@ def run(ctx):
     for i in range(len(lines)):
         if lines[i].startswith(("async", "sync ")) and "t" in lines[i].split(" ")[-1]:
             ctx.sample({"op": lines[i][:160], "impl": impl_ans[i]})
+    check_connected_refreshes(ctx)
     ctx.cov["distinct_nontrivial"] = len(nontrivial)
     ctx.cov["rule"] = ("(start,len) = boundaries, multiples of 39 +-1, shipped refresh windows, seeded random (thorough: every length at starts 0 and 256); for each the "
                        "real simulator's chain is compared with the generated arithmetic; in-order streams for the fault-free clause (all multiples of 39 always; all pairs in "
@@ -772,10 +777,36 @@ def run(ctx):
                         "the threaded engine is stepped deterministically (dispatch, handler.loop, cleanup) with a patched clock; no thread is started"]
 
 
+def check_connected_refreshes(ctx, only=None):
+    """transfers as the CONNECTED blocking client issues them: both of its threads stepped (the ping thread calls `refresh()` - a fetch of
+    the log range - once per ping period) against the real simulator, under the library's idle and active timings, with the answer to
+    one refresh lost whole / without its first / its last segment. Later refreshes succeed: the client's copy is the spa's again"""
+    import bsessions
+    from common import REPO
+    snap = str(REPO / "tests" / "snapshots" / "inYT-Pump1Hi-2020-12-13 11_19_35.snapshot")
+    for active in (True, False):
+        for lose in ("chain", "last", "first"):
+            if only is not None and only != [active, lose]:
+                continue
+            try:
+                r = bsessions.refreshes_under_loss(snap, active, lose)
+            except Exception as e:  # noqa
+                r = {"raised": f"{type(e).__name__}: {e}"}
+            ctx.count("evaluations")
+            ctx.hist("connected_refreshes", f"{'active' if active else 'idle'}:{lose}")
+            if not r.get("connected") or r.get("error") or r.get("differs_at") or r.get("block_len") != r.get("spa_block_len"):
+                ctx.violation(f"connected-refreshes:{lose}", {"kind": "connected-refreshes", "case": [active, lose]},
+                              "after the loss the next refreshes succeed: the client's copy is the spa's block, byte for byte and no longer", r)
+                return
+
+
 def replay(inp):
     import random
     from common import Ctx
     ctx = Ctx("C01", "quick", 0)
+    if inp.get("kind") == "connected-refreshes":
+        check_connected_refreshes(ctx, only=inp["case"])
+        return bool(ctx.violations), ctx.violations[0]["observed"] if ctx.violations else "the client's copy is the spa's"
     rng = random.Random(0)
     spa = bytes(rng.randrange(256) for _ in range(1024))
     cli = bytes(rng.randrange(256) for _ in range(1024))
